@@ -50,20 +50,7 @@ Definition read_line (s : stream) (buf : str) : rl_result * str * stream :=
   if utf8_valid line then (RlOk (length line), buf ++ line, s')
   else (RlInvalidUtf8, buf, s').
 
-(* the chunking of a byte string into chunks of the given sizes (cyclic pattern),
-   used by the driver to rebuild the stream the harness read from *)
-Fixpoint chunk_by (fuel : nat) (pat cur : list nat) (l : str) : stream :=
-  match fuel with
-  | O => [l]
-  | S f =>
-    match l with
-    | [] => []
-    | _ =>
-      match cur with
-      | [] => match pat with [] => [l] | _ => chunk_by f pat pat l end
-      | n :: cur' =>
-          let n' := match n with O => 1 | _ => n end in
-          firstn n' l :: chunk_by f pat cur' (skipn n' l)
-      end
-    end
-  end.
+(* enough fuel for every loop of the reader: one iteration per line of the input, plus
+   slack (computed by two tail-recursive folds: no deep recursion in the extracted code) *)
+Definition stream_fuel (s : stream) : nat :=
+  fold_left (fun n c => fold_left (fun n b => if is_nl b then S n else n) c n) s 3.
